@@ -55,9 +55,10 @@ def render(ins, fmt, order):
 
 
 def render_value(vals, fmt):
+    """vals: integers, or ("x8", m) = the number m/8 written as a decimal (value= is rounded as by round(): halves go up)"""
     lines = ['<xsl:stylesheet version="1.0" %s>' % XSLNS, '<xsl:template match="/"><o>']
     for v in vals:
-        lines.append('<n><xsl:number value="%d" format=%s/></n>' % (v, quoteattr(fmt)))
+        lines.append('<n><xsl:number value="%s" format=%s/></n>' % (xpgen.num_text(v[1]) if isinstance(v, tuple) else "%d" % v, quoteattr(fmt)))
     lines.append('</o></xsl:template></xsl:stylesheet>')
     return "\n".join(lines) + "\n"
 
@@ -174,6 +175,8 @@ def run(res, tier, seed):
     for _ in range(30 if quick else 400):
         fmt = rng.choice(FORMATS + ["a", "i", "I", "A", "01"])
         vals = [rng.choice([1, 2, 3, 4, 9, 14, 19, 26, 27, 40, 49, 52, 90, 99, 400, 499, 702, 703, 999, 1999, 3999, rng.randint(1, 4000)]) for _ in range(12)]
+        # fractional values: k + 0.5 for even and odd k, just below / above a half, eighths
+        vals += [("x8", rng.choice([4, 12, 20, 28, 36, 84, 11, 13, 19, 21, 9, 15, 8 * rng.randint(1, 60) + 4, 8 * rng.randint(1, 60) + rng.choice([1, 3, 5, 7])])) for _ in range(6)]
         cdir = os.path.join(wd, "case%d" % k); os.makedirs(cdir)
         open(os.path.join(cdir, "main.xsl"), "w").write(render_value(vals, fmt))
         open(os.path.join(cdir, "in.xml"), "w").write("<a/>")
@@ -217,8 +220,11 @@ def run(res, tier, seed):
                 if outs is None or len(outs) != len(vals):
                     res.violation("result tree does not hold one <n> per value", [sample, dn]); continue
                 for v, o in zip(vals, outs):
-                    events.append({"e": "Format", "value": v, "fmt": xdm.cps(fmt), "out": xdm.cps(o), "sample": c["id"]})
-                    nontriv.add(vlib.canon_hash([v, fmt]))
+                    if isinstance(v, tuple):
+                        events.append({"e": "Format", "value": 0, "value8": v[1], "fmt": xdm.cps(fmt), "out": xdm.cps(o), "sample": c["id"]})
+                    else:
+                        events.append({"e": "Format", "value": v, "fmt": xdm.cps(fmt), "out": xdm.cps(o), "sample": c["id"]})
+                    nontriv.add(vlib.canon_hash([list(v) if isinstance(v, tuple) else v, fmt]))
     res.cov["evaluations"] = len(events)
     dpath = os.path.join(wd, "docs.ndjson")
     vlib.write_ndjson(dpath, flats)
